@@ -375,16 +375,20 @@ def judgeFaultsLine (fam : IPFamily) (plus : Bool) (ops : List FaultOp) (out : J
   let errs ← (← reqArr out "errs").mapM (·.getBool?)
   let fired ← (← reqArr out "fired").mapM (·.getBool?)
   let panics ← reqArr out "panics"
+  let reloads ← (← reqArr out "reloads").mapM (·.getNat?)
   let n := ops.length
-  if views.length ≠ n || confs.length ≠ n || errs.length ≠ n || fired.length ≠ n then
+  if views.length ≠ n || confs.length ≠ n || errs.length ≠ n || fired.length ≠ n || reloads.length ≠ n then
     return "fail faults_missing_views"
   let allowed := getAllowedAddressType fam
   let mut fails : List String := if panics.isEmpty then [] else ["faults_panic"]
   let mut staleLoad := true
-  for (o, (cj, (v, (e, f)))) in ops.zip (confs.zip (views.zip (errs.zip fired))) do
+  for (o, (cj, (v, (e, (f, nReloads))))) in ops.zip (confs.zip (views.zip (errs.zip (fired.zip reloads)))) do
     let http ← (← reqArr cj "http").mapM parseUp
     let stream ← (← reqArr cj "stream").mapM parseUp
-    if o.e.reload then staleLoad := o.faults.replace || o.faults.reload
+    -- NGINX runs a stale configuration from a ClusterStateChange that could not reload until a reload really happens
+    let reloaded := nReloads > 0
+    if reloaded then staleLoad := false
+    else if o.e.reload then staleLoad := true
     for r in o.e.refs do
       if admissible o.e.slices r.ns r.name r.sp allowed then
         match findUp (if r.stream then stream else http) (upstreamName r) with
@@ -394,7 +398,7 @@ def judgeFaultsLine (fam : IPFamily) (plus : Bool) (ops : List FaultOp) (out : J
     if !e || !f then
       let vh ← parseTable v "http"
       let vs ← parseTable v "stream"
-      fails := fails ++ judgeHeld plus o.e.reload staleLoad ⟨http, stream⟩ vh vs
+      fails := fails ++ judgeHeld plus reloaded staleLoad ⟨http, stream⟩ vh vs
     else if plus && !o.faults.replace && !o.faults.reload && !o.faults.get then
       -- only per-upstream API errors: every OTHER upstream NGINX knows must hold this batch's endpoints
       -- (theorem `api_failure_is_local`)
